@@ -98,6 +98,18 @@ class Universe:
                     self.derived_construction.add(f.key)
                     changed = True
 
+    def _is_payload_factory(self, fi):
+        """A module-level function that defines a registered payload in its
+        body and returns it: its own statements run at registration."""
+        inner = [f for f in fi.module.functions.values()
+                 if f.parent_func is fi and f.key in self.payload_ov]
+        if not inner:
+            return False
+        names = {f.name for f in inner}
+        return any(isinstance(r, ast.Return) and isinstance(
+            r.value, ast.Name) and r.value.id in names
+            for r in model.walk_shallow(fi.node))
+
     @staticmethod
     def _top(fi):
         while fi.parent_func is not None:
@@ -146,6 +158,10 @@ class Universe:
                 return 'register'
             if fi.parent_func is not None:
                 return 'nested'
+            if self._is_payload_factory(fi):
+                # group_by_function(flag): runs once, when the library is
+                # registered, and returns the payload it defines
+                return 'register'
             return 'helper'
         if fi.name == '__init__' and fi.is_method:
             return 'init'
